@@ -2,6 +2,7 @@ package main
 
 import (
 	"fmt"
+	"go/token"
 	"go/types"
 	"sort"
 	"strings"
@@ -152,7 +153,7 @@ func checkC05(r *Report) {
 	p := loadResolve("", true)
 	e := runEffect(p)
 	effectTrusted(r)
-	r.Explain = "Ownership/effect analysis on go/ssa over everything reachable (VTA call graph) from the three Resolve methods. C05.a OWN: every value obtained from a resolve.Client interface call (and from a resolver-lifetime lru cache) is tracked with direct/deep origin facts through fields, slices, maps, closures, local cells (flow- and field-sensitive) and function summaries; every primitive write site (store, map update, append, copy, sort.*/slices.* mutators) whose region type could be client or cache memory must never see such an origin. C05.b READ-PURE: the resolve.Client methods of each implementing type write nothing reachable from their receiver (one whitelisted field, lock-guarded). C05.c RESOLVER-STATE: no field of a resolver is written after construction and Resolve stores to no package-level variable. C05.d CACHE-PURE: a function that adds to a resolver-lifetime lru cache reads (transitively, closures included) no per-call field of the struct that holds the cache, so a cached value is a function of its key and the client only and cannot carry one resolution's root into the next. This decides the structural clause 'resolution never mutates what the client handed out or resolver-lifetime state'; it does not decide equality of graphs."
+	r.Explain = "Ownership/effect analysis on go/ssa over everything reachable (VTA call graph) from the three Resolve methods. C05.a OWN: every value obtained from a resolve.Client interface call (and from a resolver-lifetime lru cache) is tracked with direct/deep origin facts through fields, slices, maps, closures, local cells (flow- and field-sensitive) and function summaries; every primitive write site (store, map update, append, copy, sort.*/slices.* mutators) whose region type could be client or cache memory must never see such an origin. C05.b READ-PURE: the resolve.Client methods of each implementing type write nothing reachable from their receiver (one whitelisted field, lock-guarded). C05.c RESOLVER-STATE: no field of a resolver is written after construction and Resolve stores to no package-level variable. C05.d CACHE-PURE: a function that adds to a resolver-lifetime lru cache reads (transitively, closures included) no per-call field of the struct that holds the cache, so a cached value is a function of its key and the client only and cannot carry one resolution's root into the next. C05.e CACHE-ON-SUCCESS: a value produced by a call that also returns an error is added to a resolver-lifetime cache only where that error is known to be nil, so a failed computation is not replayed as a success by later resolutions. This decides the structural clause 'resolution never mutates what the client handed out or resolver-lifetime state'; it does not decide equality of graphs."
 	r.Assume = []string{"out-of-scope callees (std, grpc, protobuf) do not write memory reachable from their arguments unless modelled", "values returned by resolve.Client implementations alias client state (worst case)"}
 	roots := resolveRoots(p)
 	r.floor("C05.a/OWN", "Resolve methods of resolve.Resolver implementations", len(roots), 3)
@@ -176,6 +177,8 @@ func checkC05(r *Report) {
 	resolverStateRule(r, p, e, roots)
 	// C05.d
 	cachePureRule(r, p, e)
+	// C05.e
+	cacheOnSuccessRule(r, p)
 	r.Stats["functions_in_scope"] = len(p.Funcs)
 	r.Stats["functions_reachable_from_Resolve"] = len(reach)
 	r.Stats["summary_passes"] = e.passes
@@ -442,4 +445,164 @@ func fieldsReadBefore(e *Effect, call *ssa.Call) map[*types.Var]bool {
 		}
 	}
 	return out
+}
+
+// cacheOnSuccessRule (C05.e): cache.Add(k, v) with v produced by a call that
+// also returns an error must be dominated by the err == nil side of a test of
+// that very error.
+func cacheOnSuccessRule(r *Report, p *Prog) {
+	rule := "C05.e/CACHE-ON-SUCCESS"
+	n := 0
+	var producers func(v ssa.Value, depth int, out *[]*ssa.Call)
+	producers = func(v ssa.Value, depth int, out *[]*ssa.Call) {
+		if depth > 8 {
+			return
+		}
+		switch x := v.(type) {
+		case *ssa.Extract:
+			if c, ok := x.Tuple.(*ssa.Call); ok {
+				*out = append(*out, c)
+			}
+		case *ssa.Call:
+			// value passed through a helper such as slices.Clone
+			for _, a := range x.Common().Args {
+				producers(a, depth+1, out)
+			}
+		case *ssa.UnOp:
+			if al, ok := x.X.(*ssa.Alloc); ok {
+				for _, ref := range *al.Referrers() {
+					if st, ok := ref.(*ssa.Store); ok && st.Addr == ssa.Value(al) {
+						producers(st.Val, depth+1, out)
+					}
+				}
+				return
+			}
+			producers(x.X, depth+1, out)
+		case *ssa.Phi:
+			for _, e := range x.Edges {
+				producers(e, depth+1, out)
+			}
+		case *ssa.ChangeType:
+			producers(x.X, depth+1, out)
+		case *ssa.MakeInterface:
+			producers(x.X, depth+1, out)
+		case *ssa.Slice:
+			producers(x.X, depth+1, out)
+		}
+	}
+	for _, f := range p.Funcs {
+		if f.Synthetic != "" {
+			continue
+		}
+		for _, b := range f.Blocks {
+			for _, in := range b.Instrs {
+				call, ok := in.(*ssa.Call)
+				if !ok {
+					continue
+				}
+				sc := call.Common().StaticCallee()
+				if sc == nil || !isLruMethod(sc, "Add") || len(call.Common().Args) < 3 {
+					continue
+				}
+				if strings.Contains(p.pkgOfFn(f).Pkg.Path(), "internal/lru") {
+					continue
+				}
+				n++
+				key := fnKey(f) + ": value added to " + fieldNameOf(call.Common().Args[0])
+				var prods []*ssa.Call
+				producers(call.Common().Args[2], 0, &prods)
+				var prod *ssa.Call
+				okGuard := true
+				fallible := 0
+				for _, pc := range prods {
+					res := pc.Common().Signature().Results()
+					if res.Len() < 2 || res.At(res.Len()-1).Type().String() != "error" {
+						continue
+					}
+					fallible++
+					if !errKnownNil(f, pc, call) {
+						okGuard = false
+						prod = pc
+					} else if prod == nil {
+						prod = pc
+					}
+				}
+				if fallible == 0 {
+					r.ok(rule, key, p.pos(call.Pos()), "the cached value is not the result of a fallible call")
+					continue
+				}
+				if okGuard {
+					r.ok(rule, key, p.pos(call.Pos()), "added only where the error returned by "+lastCallName(prod)+" is known to be nil")
+				} else {
+					r.bad(rule, key, p.pos(call.Pos()), "the value returned by "+lastCallName(prod)+" is cached on a path where its error has not been found nil: a failed computation is stored in the resolver-lifetime cache and later resolutions are served it as a success")
+				}
+			}
+		}
+	}
+	r.floor(rule, "call sites that add to a resolver-lifetime cache", n, 3)
+}
+
+func fieldNameOf(v ssa.Value) string {
+	if f := nearestField(v); f != nil {
+		return f.Name()
+	}
+	return short(v.Type().String())
+}
+
+// errKnownNil: the block of `at` is protected by a test of the error result of call pc.
+func errKnownNil(f *ssa.Function, pc *ssa.Call, at *ssa.Call) bool {
+	res := pc.Common().Signature().Results()
+	var errVal ssa.Value
+	for _, ref := range *pc.Referrers() {
+		if ex, ok := ref.(*ssa.Extract); ok && ex.Index == res.Len()-1 {
+			errVal = ex
+		}
+	}
+	if errVal == nil {
+		return false
+	}
+	isErr := func(v ssa.Value) bool {
+		if v == errVal {
+			return true
+		}
+		if u, ok := v.(*ssa.UnOp); ok {
+			if al, ok := u.X.(*ssa.Alloc); ok {
+				for _, ref := range *al.Referrers() {
+					if st, ok := ref.(*ssa.Store); ok && st.Val == errVal {
+						return true
+					}
+				}
+			}
+		}
+		return false
+	}
+	for _, g := range f.Blocks {
+		ifi, ok := g.Instrs[len(g.Instrs)-1].(*ssa.If)
+		if !ok {
+			continue
+		}
+		bo, ok := ifi.Cond.(*ssa.BinOp)
+		if !ok || (bo.Op != token.NEQ && bo.Op != token.EQL) {
+			continue
+		}
+		var other ssa.Value
+		if isErr(bo.X) {
+			other = bo.Y
+		} else if isErr(bo.Y) {
+			other = bo.X
+		} else {
+			continue
+		}
+		if c, ok := other.(*ssa.Const); !ok || !c.IsNil() {
+			continue
+		}
+		failSucc := g.Succs[0]
+		if bo.Op == token.EQL {
+			failSucc = g.Succs[1]
+		}
+		if guardedBy(g, failSucc, at.Block()) {
+			return true
+		}
+	}
+	return false
 }
